@@ -212,6 +212,70 @@ pub fn run_std_genesis(run: &Run, depth: usize) {
     }
 }
 
+/// Long scripted histories: one path per schedule, each a cycle of label prefixes repeated several times (a pool created, used,
+/// emptied and used again; deposits and swaps under changing proposer actions; restarts in between).  Depth-bounded search
+/// cannot reach 60-step histories; these are a deterministic family of long paths through the same engine and oracles.
+pub fn long_histories(run: &Run, thorough: bool) {
+    let mut cfg = crate::props::c01::pool_cfg();
+    cfg.splits = true;
+    cfg.burns = true;
+    cfg.restarts = true;
+    cfg.max_txs_per_block = 3;
+    cfg.seal_actions = vec![None, Some(crate::alphabet::action_dest(1)), Some(melstructs::ProposerAction { fee_multiplier_delta: -128, reward_dest: addr_true() }), Some(melstructs::ProposerAction { fee_multiplier_delta: 127, reward_dest: addr_true2() })];
+    let schedules: Vec<(&str, NetID, u128, Vec<&str>)> = vec![
+        ("user pool: create, trade, empty, re-create", NetID::Custom02, 0, vec![
+            "open", "mint(", "seal(None)", "open", "deposit[MEL/C", "seal(delta=1", "open", "swap[MEL/C", "swap[MEL/C", "seal(None)", "open", "withdraw[MEL/C", "seal(delta=-128",
+            "restart", "open", "deposit[MEL/C", "xfer(", "seal(delta=127", "open", "swap[MEL/C", "seal(None)", "open", "withdraw[MEL/C", "overpay(", "seal(delta=1",
+        ]),
+        ("built-in pools under fees", NetID::Custom02, 65536, vec![
+            "open", "deposit[MEL/SYM", "seal(delta=127", "open", "swap[MEL/SYM", "swap[ERG/MEL", "seal(None)", "open", "deposit[ERG/SYM", "overpay(", "seal(delta=-128", "restart",
+            "open", "withdraw[MEL/SYM", "swap[ERG/SYM", "seal(delta=1", "open", "split(", "burn(", "seal(None)", "open", "withdraw[ERG/SYM", "mint(", "seal(delta=127",
+        ]),
+        ("testnet from block 1 across 500 would be too long: testnet pools below 500", NetID::Testnet, 0, vec![
+            "open", "deposit[MEL/SYM", "seal(None)", "open", "swap[MEL/SYM", "seal(delta=1", "open", "withdraw[MEL/SYM", "faucet0", "seal(delta=-128", "restart", "open", "mint(", "seal(None)",
+            "open", "deposit[MEL/C", "seal(delta=127", "open", "swap[MEL/C", "seal(None)", "open", "withdraw[MEL/C", "seal(delta=1",
+        ]),
+        ("mainnet wallet", NetID::Mainnet, 0, vec![
+            "open", "xfer(", "seal(delta=1", "open", "deposit[MEL/SYM", "faucet-grandfathered", "seal(None)", "open", "swap[MEL/SYM", "seal(delta=-128", "restart", "open", "withdraw[MEL/SYM",
+            "seal(delta=127", "open", "faucet-grandfathered", "split(", "seal(None)",
+        ]),
+    ];
+    let repeats = if thorough { 6 } else { 3 };
+    let eng = Engine::new(run);
+    for (name, net, fm, cycle) in schedules {
+        let (_w, mut node) = root(net, fm, true);
+        let mut c = cfg.clone();
+        c.faucets = net != NetID::Custom02;
+        let (mut taken, mut skipped, mut stopped) = (0u64, 0u64, false);
+        'outer: for _ in 0..repeats {
+            for want in &cycle {
+                let acts = actions(&node, &c);
+                let a = match acts.iter().find(|a| a.label().starts_with(want)) {
+                    Some(a) => a.clone(),
+                    None => {
+                        skipped += 1;
+                        continue;
+                    }
+                };
+                match eng.step(&node, &a) {
+                    StepOut::Next(n) => {
+                        node = n;
+                        taken += 1;
+                    }
+                    StepOut::Rejected => skipped += 1,
+                    StepOut::Pruned => {
+                        stopped = true;
+                        break 'outer;
+                    }
+                }
+            }
+        }
+        run.states_add(taken);
+        run.set(&format!("long_history:{}", name), json!({"network": format!("{:?}", net), "fee_multiplier": fm.to_string(), "steps_taken": taken, "steps_not_available": skipped, "stopped_by_a_reported_mismatch": stopped, "final_height": node.model.height}));
+        println!("  long history '{}': {} steps taken, {} not available, height {}{}", name, taken, skipped, node.model.height, if stopped { " (stopped: engine reported)" } else { "" });
+    }
+}
+
 /// The same alphabet and depth over the other genesis configurations.
 pub fn genesis_scenarios(names: [&'static str; 3], net: NetID, cfg: &AlphaCfg, depth: usize) -> Vec<Scenario> {
     (1u8..=3)
